@@ -214,3 +214,15 @@ def cases(thorough):
     yield from isa_cases()
     yield from dunder_cases()
     yield from value_cases()
+
+
+STRIPES = 4
+
+
+def tasks(thorough, seed):
+    return [("cls", thorough, i) for i in range(STRIPES)]
+
+
+def expand(desc):
+    _, thorough, i = desc
+    return itertools.islice(cases(thorough), i, None, STRIPES)
